@@ -30,13 +30,14 @@ def deep_equal(seq1: Iterable[Any],
 
     etree_node_types = (EtreeElementNode, CommentNode, ProcessingInstructionNode)
 
-    def etree_deep_equal(e1: ElementProtocol, e2: ElementProtocol) -> bool:
+    def etree_deep_equal(e1: ElementProtocol, e2: ElementProtocol,
+                         with_tail: bool = True) -> bool:
         if cm.ne(e1.tag, e2.tag):
             return False
         elif cm.ne((e1.text or '').strip(), (e2.text or '').strip()):
             return False
-        elif cm.ne((e1.tail or '').strip(), (e2.tail or '').strip()):
-            return False
+        elif with_tail and cm.ne((e1.tail or '').strip(), (e2.tail or '').strip()):
+            return False  # the tail of the compared nodes belongs to their parents
         elif len(e1) != len(e2) or len(e1.attrib) != len(e2.attrib):
             return False
 
@@ -85,7 +86,7 @@ def deep_equal(seq1: Iterable[Any],
                     return False
                 elif isinstance(value1, etree_node_types):
                     assert isinstance(value2, etree_node_types)
-                    if not etree_deep_equal(value1.value, value2.value):
+                    if not etree_deep_equal(value1.value, value2.value, with_tail=False):
                         return False
                 elif isinstance(value1, EtreeDocumentNode):
                     assert isinstance(value2, EtreeDocumentNode)
